@@ -14,6 +14,7 @@ import itertools
 import pydsdl
 
 from .. import api, dump, engine, ws
+from .. import histories as H
 from ..ref import ns as N
 from . import c09, c10
 
@@ -100,6 +101,7 @@ def plan(tier):
     shards = [{"kind": "config", "config": name} for name in all_configs()]
     shards += [{"kind": "graphs", "part": p, "parts": 16} for p in range(16)]
     shards += [{"kind": "history", "part": p, "parts": 16} for p in range(16)]
+    shards += H.plan_shards(['faults', 'minor-versions'])
     return shards
 
 
@@ -157,6 +159,9 @@ def outside(cfg, op, tsel):
 
 
 def cases(shard, tier):
+    if shard.get("kind") == "call-histories":
+        yield from H.cases_of(shard)
+        return
     if shard["kind"] == "history":
         for k, c in enumerate(history_cases()):
             if k % shard["parts"] == shard["part"]:
@@ -277,6 +282,8 @@ def check_history(case, R: engine.Acc):
 
 
 def check_case(case, R: engine.Acc):
+    if case.get("kind") == "call-history":
+        return H.check_history(case["label"], R, H.project_full, 'outcome-depends-on-earlier-calls', 'the outcome depends only on the targets of THIS call and what they reference')
     if case.get("kind") == "history":
         return check_history(case, R)
     cfg = get_config(case["config"])
